@@ -458,7 +458,8 @@ def _case_reshard(ctx: Ctx, inp, suite="reshard", verbose=False):
     # what was persisted, decoded independently of prepare_read: one buffer per persisted shard
     from torchsnapshot.io_preparers.tensor import TensorBufferConsumer
     saved_impl = []
-    paths = [sh.tensor.location for sh in entry.shards]
+    # a persisted shard is identified by (location, byte range): with slab batching several shards share one object
+    paths = [(sh.tensor.location, tuple(sh.tensor.byte_range) if sh.tensor.byte_range else None) for sh in entry.shards]
     for sh in entry.shards:
         buf = store.get(sh.tensor.location)
         if buf is None:
@@ -478,7 +479,7 @@ def _case_reshard(ctx: Ctx, inp, suite="reshard", verbose=False):
             return
         saved_impl.append({"offsets": list(sh.offsets), "sizes": list(sh.sizes), "data": _flat_ints(t)})
     if len(set(paths)) != len(paths):
-        bad("reshard-write-alias", "two persisted shards share a storage location", {"paths": paths})
+        bad("reshard-write-alias", "two persisted shards share a storage location and byte range", {"paths": paths})
     # oracle (write): persisted boxes partition the tensor and hold G
     seen = set()
     write_ok = True
@@ -514,7 +515,7 @@ def _case_reshard(ctx: Ctx, inp, suite="reshard", verbose=False):
     rentry = ShardedTensorEntry(shards=[entry.shards[i] for i in order])
     saved_list = [saved_impl[i] for i in order]
     saved_boxes = [(sv["offsets"], sv["sizes"]) for sv in saved_list]
-    loc_to_idx = {sh.tensor.location: k for k, sh in enumerate(rentry.shards)}
+    loc_to_idx = {(sh.tensor.location, tuple(sh.tensor.byte_range) if sh.tensor.byte_range else None): k for k, sh in enumerate(rentry.shards)}
 
     # ---- destination --------------------------------------------------------------------------
     dst = inp["dst"]
@@ -581,7 +582,7 @@ def _case_reshard(ctx: Ctx, inp, suite="reshard", verbose=False):
                         {"dst_box": [o, s], "global_index": list(g), "got": got, "sentinel": sent})
                     break
     # one read request per overlapping persisted shard, each at most once
-    req_paths = [r.path for r in reqs]
+    req_paths = [(r.path, tuple(r.byte_range) if r.byte_range else None) for r in reqs]
     if len(set(req_paths)) != len(req_paths):
         bad("reshard-duplicate-read", "a persisted shard is read more than once", {"paths": req_paths})
 
@@ -593,11 +594,11 @@ def _case_reshard(ctx: Ctx, inp, suite="reshard", verbose=False):
             for i in range(len(reqs)):
                 obj2, tensors2, _ = make_dst()
                 reqs2, _ = P.prepare_read(rentry, obj2)
-                if [r.path for r in reqs2] != req_paths:
+                if [(r.path, tuple(r.byte_range) if r.byte_range else None) for r in reqs2] != req_paths:
                     bad("reshard-nondeterministic-plan", "prepare_read produced a different request list on identical input")
                     break
                 _run_reqs(st, store, reqs2, [i], False)
-                k = loc_to_idx[reqs2[i].path]
+                k = loc_to_idx[(reqs2[i].path, tuple(reqs2[i].byte_range) if reqs2[i].byte_range else None)]
                 for di, t2 in enumerate(tensors2):
                     for pos, v in enumerate(_flat_ints(t2)):
                         if v != sent:
